@@ -3,7 +3,7 @@ import json
 import os
 
 from lib import common as C
-from checks import hsim, sync_gen, sync_eval
+from checks import hsim, sync_gen, sync_eval, mv_sync
 
 LEVEL = "proof"
 
@@ -84,6 +84,9 @@ def run(rep, tier, seed, replay=None):
         rep.cov["leanchecker"] = "ok" if okc else out
         if not okc:
             rep.violation("unverified", dict(broken="leanchecker Photon.Properties.C04", log=out), no_input=True)
+    if replay and json.load(open(replay)).get("harness") == "mv_sync":
+        mv_sync.run(rep, "C04", ["intrrace"], tier, seed, json.load(open(replay))["program"])
+        return
     binary = hsim.build(rep)
     if not binary:
         return
@@ -117,3 +120,5 @@ def run(rep, tier, seed, replay=None):
                        "distinct (operation, argument, return, errno) outcomes")
     rep.sample(progs[-1])
     sync_eval.evaluate(rep, "C04", progs, results, oracle, C.known_findings("C04"), stuck_is_violation=False)
+    if not replay:
+        mv_sync.run(rep, "C04", ["intrrace"], tier, seed)
